@@ -346,18 +346,20 @@ class Runner:
             lines.append(f"{json.dumps(k)} = {json.dumps(val)}")
         return "\n".join(lines) + "\n"
 
-    def cli(self, cli: dict, pyproject: dict | None = None, extra_argv: list[str] | None = None, raw_keys: dict | None = None) -> dict:
+    def cli(self, cli: dict, pyproject: dict | None = None, extra_argv: list[str] | None = None, raw_keys: dict | None = None,
+            timeout: float | None = None) -> dict:
         d = self._dir(pyproject, raw_keys)
         argv = ["-m", "datamodel_code_generator", "--input", "s.json", "--output", "out.py", "--input-file-type", "jsonschema", "--disable-timestamp"]
         for k, v in cli.items():
             argv += argv_of(self.tab, k, v)
-        p = run_py(argv + (extra_argv or []), cwd=str(d), env=child_env())
+        p = run_py(argv + (extra_argv or []), cwd=str(d), env=child_env(), **({"timeout": timeout} if timeout else {}))
         return self._collect(d, p)
 
-    def keyword(self, opts: dict) -> dict:
+    def keyword(self, opts: dict, timeout: float | None = None) -> dict:
         d = self._dir(None)
         vals = {k: py_value(self.tab[k]["kind"], v) for k, v in opts.items()}
-        p = run_py(["-c", KEYWORD_SCRIPT, json.dumps(vals), json.dumps(RENAMES), json.dumps(FILE_VALUED)], cwd=str(d), env=child_env())
+        p = run_py(["-c", KEYWORD_SCRIPT, json.dumps(vals), json.dumps(RENAMES), json.dumps(FILE_VALUED)], cwd=str(d), env=child_env(),
+                   **({"timeout": timeout} if timeout else {}))
         return self._collect(d, p)
 
     @staticmethod
@@ -390,7 +392,17 @@ def first_diff(a: str | None, b: str | None) -> str:
 
 
 def three_ways_jobs(rn: Runner, opts: dict):
-    return [lambda: rn.cli(opts), lambda: rn.cli({}, opts), lambda: rn.keyword(opts)]
+    t = REFUSED_TIMEOUT_S if opts in REFUSED_BY_EVERY_ROUTE else None   # (a route that does not refuse such a value never returns)
+    return [lambda: rn.cli(opts, timeout=t), lambda: rn.cli({}, opts, timeout=t), lambda: rn.keyword(opts, timeout=t)]
+
+
+def refusal_message(r: dict, route: str) -> str:
+    """the message a refusing run leaves on stderr: its last line (the keyword child prints `TypeName: message`)"""
+    lines = [x for x in r["stderr"].splitlines() if x.strip()]
+    last = lines[-1] if lines else ""
+    if route == "keyword" and ": " in last:
+        last = last.split(": ", 1)[1]
+    return last
 
 
 def three_ways_many(ck: Check, camp, rn: Runner, opts_list: list[dict], baseline: dict | None) -> list[dict]:
@@ -416,8 +428,9 @@ def three_ways_judge(ck: Check, camp, rn: Runner, opts: dict, res: dict, baselin
     camp.hit("optionkind:" + "+".join(sorted(rn.tab[k]["kind"] for k in opts)))
     if all(r["timeout"] for r in res.values()):
         # the three ways agree: none of them returns. A run that never ends is C01's / C07's subject
-        # (known finding D22: a special_field_name_prefix that is not an identifier, e.g. "0"), not a
-        # disagreement between the ways of supplying the option.
+        # (formerly finding D22: a special_field_name_prefix that cannot start an identifier, e.g. "0"; repaired —
+        # the resolver's constructor refuses it, and C07 reports a regression), not a disagreement between the
+        # ways of supplying the option.
         camp.hit("all-three-ways-hang(C01/C07 domain)")
         return
     if any(r["timeout"] for r in res.values()):
@@ -432,6 +445,18 @@ def three_ways_judge(ck: Check, camp, rn: Runner, opts: dict, res: dict, baselin
         for r in res.values():
             if r["rc"] not in (0, 1) or (r["rc"] == 1 and not r["stderr"]):
                 ck.fail({"oracle": "exit_code", "option": name}, {"kind": "three_ways", "opts": opts}, describe(r))
+        if opts in REFUSED_BY_EVERY_ROUTE and c["rc"] == 1:
+            # a value the generator itself refuses (not a Config validator): every route must refuse it IN THE SAME WAY —
+            # exit status 1, nothing written, the same message
+            camp.hit("refused-by-every-route")
+            msgs = {w: refusal_message(r, w) for w, r in res.items()}
+            if len(set(msgs.values())) != 1:
+                odd_m = "keyword" if msgs["cli"] == msgs["pyproject"] else "pyproject" if msgs["cli"] == msgs["keyword"] else "cli"
+                ck.fail({"oracle": "three_ways", "option": name, "value": "+".join(opts[x] for x in sorted(opts)), "odd_one": odd_m,
+                         "mechanism": "refusal-differs"}, {"kind": "three_ways", "opts": opts},
+                        "; ".join(f"{w}: {describe(r)}" for w, r in res.items()), "the same message on stderr for the three ways")
+            elif len(camp.samples) < 3:
+                camp.samples.append({"opts": opts, "three_ways": "refused alike (exit status 1, no output)", "message": msgs["cli"][:120]})
         if len(camp.samples) < 3 and c["rc"] == 0:
             camp.samples.append({"opts": opts, "three_ways": "byte-identical", "bytes": len(c["output"] or "")})
         return
@@ -449,9 +474,11 @@ def three_ways_judge(ck: Check, camp, rn: Runner, opts: dict, res: dict, baselin
     ck.fail(cls, inp, obs, "byte-identical output and equal exit status for the three ways")
 
 
-# Known finding D22 (C01 / C07): with this value NO route returns (the three ways agree: all hang until the watchdog
-# fires, 3 × 120 s of CPU). The thorough tier runs it and records "all-three-ways-hang"; the quick sample leaves it out.
-NEVER_RETURNS = [{"special_field_name_prefix": "0"}]
+# Formerly finding D22 (C01 / C07; repaired): a special prefix that cannot start an identifier. No route returned; now the
+# constructor of the field-name resolver refuses the value, whichever way it was supplied. Every tier runs it and compares the
+# refusals (exit status, no output, message). A route that does not refuse it hangs: short watchdog for these option sets.
+REFUSED_BY_EVERY_ROUTE = [{"special_field_name_prefix": "0"}]
+REFUSED_TIMEOUT_S = 30.0
 
 
 def e2e_options(ck: Check, rn: Runner) -> list[dict]:
@@ -477,10 +504,11 @@ def e2e_options(ck: Check, rn: Runner) -> list[dict]:
     rewritten = [o for o in all_opts if set(o) & set(E2E_EXTRA) and o not in coupled and o not in falsy]
     # (the msgspec coupling is the witness of D15, re-run by known_findings() in every tier)
     always = [o for o in coupled if o == {"use_annotated": "True"}]   # the known coupling D15, flag side
+    always += [o for o in all_opts if o in REFUSED_BY_EVERY_ROUTE]    # the refused special prefix: the refusals are compared
     picked = always + rng.sample([o for o in coupled if o not in always], 1) + rng.sample(falsy, 2) + rng.sample(rewritten, 1)
     strata: dict[str, list[dict]] = {}
     for o in all_opts:
-        if o in coupled or o in falsy or o in rewritten or o in NEVER_RETURNS:
+        if o in coupled or o in falsy or o in rewritten or o in REFUSED_BY_EVERY_ROUTE:
             continue
         strata.setdefault(tab[sorted(o)[0]]["kind"], []).append(o)
     quota = {"bool": 2, "enum": 1, "enumlist": 1, "text": 1}
